@@ -5,7 +5,7 @@ from runner import Case, CaseSet
 from props.c06 import canon_group
 
 ID = 'C10'
-OBLIGATIONS = ['Props/C10.v', 'Props/Tie/windows_tie.v', 'Props/Tie/charge_tie.v', 'Props/Tie/tables_tie.v', 'Props/Tie/minipy_windows_tie.v', 'Props/Tie/minipy_hydro_tie.v', 'Props/Tie/minipy_density_tie.v']
+OBLIGATIONS = ['Props/C10.v', 'Props/Tie/windows_tie.v', 'Props/Tie/charge_tie.v', 'Props/Tie/tables_tie.v', 'Props/Tie/minipy_windows_tie.v', 'Props/Tie/minipy_hydro_tie.v', 'Props/Tie/minipy_density_tie.v', 'Props/Tie/minipy_lincomp_tie.v']
 RULE = ('sequences: +/-/0 patterns of length 1..6 (sampled) and random class sequences (N <= 40 quick, 120 thorough) x every '
         'window w in 1..N+3 for NCPR/FCR/sigma/hydropathy; composition with default groups and random user groups (mixed '
         'case, string/list/tuple, one invalid) for sampled windows; non-trivial = distinct (sequence, window) with 2 <= w <= N')
@@ -17,7 +17,7 @@ LEVEL_TEXT = ('Proof: flank formula = (floor((w-1)/2), floor(w/2)); profile leng
               '— all for every sequence/window/statistic. Tie: guards, flank arithmetic and per-window formulas translated from '
               'the five source functions and proved equal to the model on complete grids; real getters compared in Coq.')
 LEVEL_NOTE = 'Closed under the global context. Translator ties are bounded grids (N <= 40, w <= N+3), stated in the lemmas.'
-LEVEL_NOTE_MINIPY = (' Whole-function ties (minipy_windows_tie.v): linearDistOfNCPR, linearDistOfFCR, linearDistOfSigma, linearDistOfHydropathy (minipy_hydro_tie.v), linearDenistyOfAAs (minipy_density_tie.v) and __check_window_to_length are translated into Core/MiniPy.v terms on every run; '
+LEVEL_NOTE_MINIPY = (' Whole-function ties (minipy_windows_tie.v): linearDistOfNCPR, linearDistOfFCR, linearDistOfSigma, linearDistOfHydropathy (minipy_hydro_tie.v), linearDenistyOfAAs (minipy_density_tie.v), linearCompositions (minipy_lincomp_tie.v: every group list, sanitised and stacked in order; the seven default groups) and __check_window_to_length are translated into Core/MiniPy.v terms on every run; '
                      'for every charge pattern and window >= 1 the translated code rejects exactly when the window is longer than the sequence and otherwise returns the position row and flank zeros + one value per window.')
 TECHNIQUE = 'Coq proof (list/nth/div-mod arithmetic) + translator tie on grids + in-Coq differential correspondence'
 
